@@ -82,6 +82,7 @@ def run(module, cfg=None, env=None, workers=None, simulate=None, depth=None, see
     # module search path: spec/ and its sub-directories
     libs = [SPEC] + [os.path.join(SPEC, d) for d in ("mc", "gen", "trace")]
     java = ["java", "-XX:+UseParallelGC", "-Xmx" + heap, "-Xss16m",
+            "-Djava.io.tmpdir=" + meta,          # TLC's own scratch directories (tlc-<n>) go where they are removed
             "-DTLA-Library=" + os.pathsep.join(libs)]
     if queue_dfs:
         java.append("-Dtlc2.tool.queue.IStateQueue=StateDeque")
